@@ -2,7 +2,12 @@ package simnet
 
 // monitors.go — registry of the oracles per property.
 
+// MonitorsFor: the monitors of the property plus the one that watches the query connection.
 func MonitorsFor(prop string) []Monitor {
+	return append(monitorsOf(prop), &monServed{})
+}
+
+func monitorsOf(prop string) []Monitor {
 	switch prop {
 	case "C02":
 		return []Monitor{&monC02{}}
